@@ -90,8 +90,7 @@ UNITS += [
     U("U-rt-bigint", ["resolve_type::infer_runtime_type"], ["rt_bigint_literal"], ["C17"], domain="bigint literal type", mem_gb=8, assumes=[A_DROP]),
 ]
 
-STEP_ISCONST_Q = ["isconst_k0_w0", "isconst_k1_w0", "isconst_k2_w0", "isconst_k3_w0", "isconst_k5_w0", "isconst_k1_w1", "isconst_k3_w1", "isconst_k0_w3", "isconst_k3_w4", "isconst_value_kinds"]
-PLAIN = ["step_ref", "step_class", "step_style", "step_key", "step_on", "step_nativeon", "step_onclick_camel", "step_onclick_lower", "step_onupdate_mv", "step_listener", "step_other",
+STEP_PLAIN = ["step_ref", "step_class", "step_style", "step_key", "step_on", "step_nativeon", "step_onclick_camel", "step_onclick_lower", "step_onupdate_mv", "step_listener", "step_other",
               "step_other_valueless", "step_other_string", "step_class_string", "step_listener_valueless", "step_ref_string"]
 A_EXTRACT = "A-GLUE: the arm bodies / assembly / finalisation of transform_attrs are verified as extracted regions (tools/extract.py, verbatim); that the fold applies the arms to every attribute in order from the declared initial state is checked syntactically by the extractor and, bounded, by the whole-function units of the thorough tier"
 UNITS += [
